@@ -750,6 +750,12 @@ ScopeTable ==
                                   Cchild(5, "s1", 2), Cchild(5, "s2", 3),
                                   [op |-> "remove", rel |-> "DI", p |-> 4, x |-> 5] >>,
                       !.max = [N |-> 1, L |-> 1, D |-> 5, P |-> 1, C |-> 1, I |-> 8, Q |-> 1, W |-> 2], !.parents = {}],
+    \* an instance that never had a name is assigned name = None (and a named one too)
+    hier_none |-> [HierScope({"hcheck", "C11"}, {}) EXCEPT
+                      !.init = HierInit \o << Cchild(2, NoVal, 1), Cchild(3, "m", 2), Cchild(3, "x", 1),
+                                              [op |-> "set_name_none", kind |-> "I", x |-> 2],
+                                              [op |-> "set_name_none", kind |-> "I", x |-> 4] >>,
+                      !.ops = {}, !.parents = {}],
     \* a cell instanced twice TWO levels above the elements asked for: top/m1:m/a:a/b:leaf and top/m2:m/a:a/b:leaf
     hier_twice |-> [HierScope({"hcheck", "C11"}, {}) EXCEPT
                       !.init = << Cnew("N", "n"), Ccreate("NL", 1, "lib", 0), Ccreate("LD", 1, "leaf", 0), Ccreate("LD", 1, "a", 0),
